@@ -27,7 +27,9 @@ CHECKS.update({
             "offsets) x store algorithms, plus explicit-state BFS to closure in which witness pids must keep retrieving "
             "their exact bytes after every history of calls on other pids (the other pids include suffix / prefix relatives "
             "of the witnesses). Environment answers: every raw write(2) of a store, in turn, is a SHORT write - a store "
-            "that reports success must still retrieve the exact bytes, size and digests."
+            "that reports success must still retrieve the exact bytes, size and digests. Sizes include the thresholds of a "
+            "'large object' path (64 KiB, 1 MiB); content shapes with runs of equal bytes (zero head / tail / alternating) at "
+            "block multiples."
             " Line-level part (engine L): two overlapping calls on one instance with ONE pre-emption placed at every source line of the package (thorough tier: every bytecode); each call's result must be what a sequential run gives.",
             S_NOTE + " Byte values follow a position-dependent pattern; digest correctness for arbitrary bytes is hashlib's.",
             "bounded-exhaustive input enumeration + explicit-state model checking of the implementation", "4/C01"),
@@ -36,7 +38,8 @@ CHECKS.update({
             "get_hex_digest, and BFS over histories of store_object calls with differing algorithm arguments on ONE "
             "instance (instance attributes carried along; get_hex_digest and rejected re-stores in the alphabet), checking "
             "the key set and every digest of every call (hidden in-memory state that cannot be pickled is fingerprinted and "
-            "re-created by replaying the history); digests after short writes and for an object altered on disk."
+            "re-created by replaying the history); digests after short writes and for an object altered on disk; every raw "
+            "read of get_hex_digest failing once with EIO / ESTALE / EAGAIN (a returned value must be the true digest)."
             " Line-level part (engine L): two overlapping calls on one instance with ONE pre-emption placed at every source line of the package (thorough tier: every bytecode); each call's result must be what a sequential run gives.",
             S_NOTE, "bounded-exhaustive input enumeration + explicit-state model checking (one-instance histories)", "4/C02"),
     "C03": ("S", "model_checking",
@@ -136,7 +139,9 @@ CHECKS.update({
             "shared lists are scheduling points), same oracles. Single I/O faults are injected in both modes and must give "
             "the same outcome and state. A sampled conformance run with REAL forked processes must terminate with nothing locked.",
             T_NOTE + " Real forked processes and the real multiprocessing primitives are exercised only by the sampled "
-            "conformance self-test. Known findings C16-R1 / C16-R3 mirror C07's.",
+            "conformance self-test. Mode at initialisation: several stores initialised in one interpreter with alternating "
+            "settings (same and different directories) must each synchronise through the primitives of their own setting. "
+            "Known findings C16-R1 / C16-R3 mirror C07's.",
             "explicit-state differential model checking + stateless model checking of the multiprocessing code paths on "
             "cooperative shims", "4/C16"),
 })
